@@ -446,4 +446,27 @@ theorem ev_flags [DecidableEq σ] [DecidableEq ε] (F : Fold σ ε) (s : Sys σ 
   simp only [answer, castMessage, hsnd, h4, hXs, if_true]
   exact ⟨h1, h2⟩
 
+
+/-! ### histories and the specification -/
+
+theorem run_append [DecidableEq σ] [DecidableEq ε] (v : Variant) (F : Fold σ ε) (s : Sys σ ε) (h₁ h₂ : List (Op ε)) :
+    run v F s (h₁ ++ h₂) = run v F (run v F s h₁) h₂ := by
+  simp [run, List.foldl_append]
+
+
+/-- the specification's state is the fold of the history's events -/
+theorem spec_run_cur (F : Fold σ ε) (s : MV.Spec.Persistence.S σ) (h : List (Op ε)) :
+    (MV.Spec.Persistence.run F s h).cur = (MV.Spec.Persistence.eventsOf h).foldl F.apply s.cur := by
+  induction h generalizing s with
+  | nil => rfl
+  | cons o h ih =>
+    show (MV.Spec.Persistence.run F (MV.Spec.Persistence.step F s o).1 h).cur = _
+    rw [ih]
+    cases o <;> rfl
+
+theorem foldl_snoc (acc es : List ε) : es.foldl (fun l e => l ++ [e]) acc = acc ++ es := by
+  induction es generalizing acc with
+  | nil => simp
+  | cons e es ih => simp [ih]
+
 end MV.Lemmas.Persistence
